@@ -358,3 +358,139 @@ package mapping
 //@   ensures [bool-parsed] ret(validateValueInOptions) == nil && k1 == 1 ==> calls(strconv.ParseBool, envVal) == 1 && (ret(strconv.ParseBool, 1) != nil ==> result != nil && calls(SetBool) == 0) && (ret(strconv.ParseBool, 1) == nil ==> result == nil && calls(SetBool) == 1 && arg(SetBool, 1) == ret(strconv.ParseBool, 0))
 //@   ensures [string-verbatim] ret(validateValueInOptions) == nil && k1 == 24 && kd != 24 ==> calls(SetString) == 1 && arg(SetString, 1) == envVal && result == nil
 //@   ensures [numbers-through-the-checked-path] ret(validateValueInOptions) == nil && k1 != 1 && k1 != 24 && k1 != kd ==> calls(u.processFieldPrimitiveWithJSONNumber) == 1 && arg(processFieldPrimitiveWithJSONNumber, 3) == envVal && result == ret(processFieldPrimitiveWithJSONNumber)
+
+// ---------------- maps, string-encoded containers, defaults (C05) ----------------
+// fillMap: an unsettable field, a conversion error, or a converted map not assignable to the field is an error
+// and nothing is stored; otherwise exactly the converted map is stored.
+//@ func (*Unmarshaler).fillMap
+//@   prop C05
+//@   opaque generateMap
+//@   requires u != nil
+//@   ensures [unsettable] !ret(CanSet) ==> result == errValueNotSettable && calls(Set) == 0 && calls(generateMap) == 0
+//@   ensures [conversion-error] calls(generateMap) == 1 && ret(generateMap, 1) != nil ==> result == ret(generateMap, 1) && calls(Set) == 0
+//@   ensures [not-assignable] calls(AssignableTo) == 1 && !ret(AssignableTo) ==> result == errTypeMismatch && calls(Set) == 0
+//@   ensures [stores-the-converted-map] result == nil ==> calls(Set) == 1 && calls(value.Set, ret(generateMap, 0)) == 1 && ret(AssignableTo)
+//@   ensures [converted-for-the-field-type] calls(generateMap) == 1 ==> arg(generateMap, 1) == ret(Key) && arg(generateMap, 2) == ret(Elem) && arg(generateMap, 3) == mapValue
+// fillMapFromString: only a string (or Stringer) is decoded - as JSON, with numbers kept exact - into the field.
+//@ func (*Unmarshaler).fillMapFromString
+//@   prop C05
+//@   opaque UnmarshalFromString
+//@   ensures [unsettable] !ret(CanSet) ==> result == errValueNotSettable && calls(UnmarshalFromString) == 0
+//@   ensures [string-decoded-into-the-field] ret(CanSet) && typeis(mapValue, string) && calls(String) == 0 ==> calls(jsonx.UnmarshalFromString) == 1 && arg(jsonx.UnmarshalFromString, 0) == unbox(mapValue, string) && arg(jsonx.UnmarshalFromString, 1) == ret(Interface) && result == ret(jsonx.UnmarshalFromString)
+//@   ensures [anything-else-unsupported] ret(CanSet) && calls(UnmarshalFromString) == 0 ==> result == errUnsupportedType
+// fillSliceFromString: the text is decoded as a JSON list, every element goes through the kind-checked element
+// store, and the field receives the new slice only when all elements were accepted.
+//@ func (*Unmarshaler).fillSliceFromString
+//@   prop C05
+//@   opaque UnmarshalFromString, Deref, fillSliceValue
+//@   requires u != nil
+//@   loop 1 invariant 0 <= i && calls(fillSliceValue) == i && calls(Set) == 0 && calls(reflect.MakeSlice) == 1
+//@   loop 1 iteration-ensures [element-through-the-checked-store] calls(u.fillSliceValue) == 1 && arg(fillSliceValue, 2) == at_head(i) && arg(fillSliceValue, 3) == baseFieldKind && arg(fillSliceValue, 1) == conv && arg(fillSliceValue, 4) == slice[at_head(i)] && ret(fillSliceValue) == nil
+//@   ensures [decode-error] calls(UnmarshalFromString) == 1 && ret(UnmarshalFromString) != nil ==> result == ret(UnmarshalFromString) && calls(Set) == 0
+//@   ensures [anything-else-unsupported] calls(UnmarshalFromString) == 0 ==> result == errUnsupportedType && calls(Set) == 0
+//@   ensures [error-stores-nothing] result != nil ==> calls(Set) == 0
+//@   ensures [all-elements-accepted] result == nil ==> calls(fillSliceValue) == arg(reflect.MakeSlice, 1) && calls(value.Set, ret(reflect.MakeSlice)) == 1 && calls(Set) == 1
+// fillSliceWithDefault: the default text is parsed once (a string list by splitting, anything else as JSON), and
+// goes through the same slice filler as a document value.
+//@ func (*Unmarshaler).fillSliceWithDefault
+//@   prop C05
+//@   opaque Deref, parseGroupedSegments, UnmarshalFromString, fillSlice
+//@   requires u != nil
+//@   ensures [bad-default-is-an-error] calls(UnmarshalFromString) == 1 && ret(UnmarshalFromString) != nil ==> result == ret(UnmarshalFromString) && calls(fillSlice) == 0
+//@   ensures [through-the-slice-filler] !(calls(UnmarshalFromString) == 1 && ret(UnmarshalFromString) != nil) ==> calls(u.fillSlice) == 1 && arg(fillSlice, 1) == derefedType && arg(fillSlice, 2) == value && result == ret(fillSlice)
+//@   ensures [string-list-split] calls(parseGroupedSegments) == 1 ==> ret(Kind) == 24 && arg(parseGroupedSegments, 0) == defaultValue && typeis(arg(fillSlice, 3), []string) && unbox(arg(fillSlice, 3), []string) == ret(parseGroupedSegments)
+//@   ensures [other-kinds-as-json] calls(UnmarshalFromString) == 1 ==> ret(Kind) != 24 && arg(UnmarshalFromString, 0) == defaultValue
+// parseOptionsWithContext: the tag is parsed under the unmarshaler's key; a parse error, or an error resolving the
+// options against the document (optional-dependency), is returned with no key; no options => the bare key.
+//@ func (*Unmarshaler).parseOptionsWithContext
+//@   prop C05
+//@   opaque parseKeyAndOptions, toOptionsWithContext
+//@   requires u != nil
+//@   ensures [parsed-under-own-key] calls(parseKeyAndOptions) == 1 && arg(parseKeyAndOptions, 0) == u.key && arg(parseKeyAndOptions, 1) == field
+//@   ensures [tag-error] ret(parseKeyAndOptions, 2) != nil ==> result2 == ret(parseKeyAndOptions, 2) && result1 == nil && result0 == "" && calls(toOptionsWithContext) == 0
+//@   ensures [no-options] ret(parseKeyAndOptions, 2) == nil && ret(parseKeyAndOptions, 1) == nil ==> result0 == ret(parseKeyAndOptions, 0) && result1 == nil && result2 == nil && calls(toOptionsWithContext) == 0
+//@   ensures [context-error] calls(toOptionsWithContext) == 1 && ret(toOptionsWithContext, 1) != nil ==> result2 == ret(toOptionsWithContext, 1) && result1 == nil && result0 == ""
+//@   ensures [resolved-against-the-document] calls(toOptionsWithContext) == 1 ==> arg(toOptionsWithContext, 0) == ret(parseKeyAndOptions, 1) && arg(toOptionsWithContext, 1) == ret(parseKeyAndOptions, 0) && arg(toOptionsWithContext, 2) == m && arg(toOptionsWithContext, 3) == fullName && (ret(toOptionsWithContext, 1) == nil ==> result0 == ret(parseKeyAndOptions, 0) && result1 == ret(toOptionsWithContext, 0) && result2 == nil)
+// fillDurationValue: the text is parsed as a duration; a parse error is returned and nothing is stored.
+//@ func fillDurationValue
+//@   prop C05
+//@   ensures [parse-error-stores-nothing] ret(time.ParseDuration, 1) != nil ==> result == ret(time.ParseDuration, 1) && calls(Set) == 0
+//@   ensures [parsed-text] calls(time.ParseDuration) == 1 && arg(time.ParseDuration, 0) == dur
+//@   ensures [stored-once] ret(time.ParseDuration, 1) == nil ==> result == nil && calls(Set) == 1 && calls(reflect.ValueOf) == 1 && unbox(arg(reflect.ValueOf, 0), time.Duration) == ret(time.ParseDuration, 0) && (fieldKind == 22 ==> calls(Elem) == 1) && (fieldKind != 22 ==> calls(Elem) == 0)
+// createValuer: fields tagged inherit read through a valuer that falls back to the enclosing objects; every
+// other field reads only the object itself.
+//@ func createValuer
+//@   prop C05
+//@   opaque inherit
+//@   requires opts != nil
+//@   ensures [inherit-falls-back] ret(inherit) ==> typeis(result, recursiveValuer) && unbox(result, recursiveValuer).current == v && unbox(result, recursiveValuer).parent == ret(Parent)
+//@   ensures [plain-reads-own-object] !ret(inherit) ==> typeis(result, simpleValuer) && unbox(result, simpleValuer).current == v && unbox(result, simpleValuer).parent == ret(Parent)
+// getValueWithChainedKeys: a single key is looked up in the object; a dotted path descends only through nested
+// objects (map[string]any) and is absent otherwise.
+//@ func getValueWithChainedKeys
+//@   prop C05
+//@   ensures [no-key-absent] len(keys) == 0 ==> !result1 && result0 == nil
+//@   ensures [single-key-lookup] len(keys) == 1 ==> calls(Value) == 1 && arg(Value, 0) == keys[0] && result0 == ret(Value, 0) && result1 == ret(Value, 1)
+//@   ensures [path-descends-only-into-objects] len(keys) > 1 && (!ret(Value, 1, 1) || !typeis(ret(Value, 0, 1), map[string]any)) ==> !result1 && result0 == nil && calls(getValueWithChainedKeys) == 0
+//@   ensures [path-descends] len(keys) > 1 && ret(Value, 1, 1) && typeis(ret(Value, 0, 1), map[string]any) ==> calls(getValueWithChainedKeys) == 1 && result0 == ret(getValueWithChainedKeys, 0) && result1 == ret(getValueWithChainedKeys, 1) && len(arg(getValueWithChainedKeys, 1)) == len(keys) - 1 && typeis(arg(getValueWithChainedKeys, 0), recursiveValuer) && unbox(unbox(arg(getValueWithChainedKeys, 0), recursiveValuer).current, mapValuer) == unbox(ret(Value, 0, 1), map[string]any)
+// processFieldTextUnmarshaler: only a field (or its address) implementing TextUnmarshaler, given text (string or
+// bytes), is filled through UnmarshalText - with exactly that text; everything else is left to the other fillers.
+//@ func (*Unmarshaler).processFieldTextUnmarshaler
+//@   prop C05
+//@   ensures [not-handled] calls(UnmarshalText) == 0 ==> !result0 && result1 == nil
+//@   ensures [handled-with-its-verdict] calls(UnmarshalText) == 1 ==> result0 && result1 == ret(UnmarshalText) && (typeis(mapValue, string) || typeis(mapValue, []byte))
+//@   ensures [string-text-passed-exactly] calls(UnmarshalText) == 1 && typeis(mapValue, string) ==> bytes2str(arg(UnmarshalText, 0)) == unbox(mapValue, string)
+//@   ensures [bytes-passed-exactly] calls(UnmarshalText) == 1 && typeis(mapValue, []byte) ==> arg(UnmarshalText, 0) == unbox(mapValue, []byte)
+//@   ensures [at-most-once] calls(UnmarshalText) <= 1
+//@   ensures [pointer-field-itself-else-its-address] (ret(Kind) == 22 ==> calls(Addr) == 0) && (ret(Kind) != 22 ==> calls(Addr) == 1)
+// Valuers. simpleValuer reads its own object only. recursiveValuer falls back to the enclosing objects when the
+// key is absent, and when both hold an object under the key the enclosing object's entries fill only the keys the
+// inner object lacks (inner entries win). Parent() of either is a recursive view of the enclosing object.
+//@ func (simpleValuer).Value
+//@   prop C05
+//@   ensures [own-object-only] calls(Value) == 1 && arg(Value, 0) == key && result0 == ret(Value, 0) && result1 == ret(Value, 1)
+//@ func (simpleValuer).Parent
+//@   prop C05
+//@   ensures [no-parent] sv.parent == nil ==> result == nil
+//@   ensures [recursive-view-of-parent] sv.parent != nil ==> typeis(result, recursiveValuer) && unbox(result, recursiveValuer).current == sv.parent && unbox(result, recursiveValuer).parent == ret(Parent)
+//@ func (recursiveValuer).Parent
+//@   prop C05
+//@   ensures [no-parent] rv.parent == nil ==> result == nil
+//@   ensures [recursive-view-of-parent] rv.parent != nil ==> typeis(result, recursiveValuer) && unbox(result, recursiveValuer).current == rv.parent && unbox(result, recursiveValuer).parent == ret(Parent)
+//@ func (recursiveValuer).Value
+//@   prop C05
+//@   opaque Parent
+//@   requires rv.current != nil
+//@   let own = ret(Value, 0, 1)
+//@   let found = ret(Value, 1, 1)
+//@   ensures [own-first] calls(Value) >= 1 && arg(Value, 0, 1) == key
+//@   ensures [absent-without-parent] !found && ret(Parent) == nil ==> !result1 && result0 == nil
+//@   ensures [absent-falls-back] !found && ret(Parent) != nil ==> calls(Value) == 2 && arg(Value, 0, 2) == key && result0 == ret(Value, 0, 2) && result1 == ret(Value, 1, 2)
+//@   ensures [own-non-object-wins] found && !typeis(own, map[string]any) ==> result1 && result0 == own && calls(Value) == 1
+//@   ensures [found-is-found] found ==> result1
+//@   ensures [object-without-outer-object-unchanged] found && typeis(own, map[string]any) && (ret(Parent) == nil || !ret(Value, 1, 2) || !typeis(ret(Value, 0, 2), map[string]any)) ==> result0 == own
+//@   let vm = unbox(own, map[string]any)
+//@   loop 1 invariant typeis(own, map[string]any) && found && forallk(k0, string, old(has(vm, k0)) ==> has(vm, k0) && vm[k0] == old(vm[k0]))
+//@   ensures [inner-entries-win] found && typeis(own, map[string]any) ==> typeis(result0, map[string]any) && unbox(result0, map[string]any) == vm && forallk(k0, string, old(has(vm, k0)) ==> has(vm, k0) && vm[k0] == old(vm[k0]))
+// generateMap: a document map of exactly the field's map type is taken as it is; otherwise every entry is converted
+// on its own and stored under its own key only after its check succeeded - lists through the slice filler, objects
+// through Unmarshal into a new value, nested maps recursively, bool / string entries only into bool / string
+// elements, numbers through the checked store, anything else only when the kinds agree. Any failure returns the
+// empty value with the error (the partially built map is dropped).
+//@ func (*Unmarshaler).generateMap
+//@   prop C05
+//@   opaque Deref, fillSlice, Unmarshal, generateMap, setValue
+//@   requires u != nil
+//@   let data = ret(Interface, 0, 1)
+//@   ensures [same-type-taken-as-is] ret(reflect.MapOf) == ret(reflect.TypeOf) ==> result1 == nil && result0 == ret(reflect.ValueOf) && calls(reflect.MakeMapWithSize) == 0
+//@   ensures [failure-drops-the-map] result1 != nil ==> result0 == emptyValue
+//@   ensures [converted-map-returned] result1 == nil && ret(reflect.MapOf) != ret(reflect.TypeOf) ==> result0 == ret(reflect.MakeMapWithSize) && arg(reflect.MakeMapWithSize, 0) == ret(reflect.MapOf)
+//@   loop 1 invariant calls(reflect.MakeMapWithSize) == 1 && ret(reflect.MapOf) != ret(reflect.TypeOf) && calls(reflect.MapOf) == 1 && calls(reflect.TypeOf) == 1
+//@   loop 1 iteration-ensures [entry-stored-under-its-own-key] calls(SetMapIndex) == 1 && calls(MapIndex) == 1 && arg(SetMapIndex, 1) == arg(MapIndex, 1) && arg(SetMapIndex, 0) == targetValue && arg(MapIndex, 0) == refValue
+//@   loop 1 iteration-ensures [list-entry-through-the-slice-filler] dereffedElemKind == 23 ==> calls(u.fillSlice) == 1 && ret(fillSlice) == nil && arg(fillSlice, 1) == elemType && arg(fillSlice, 3) == data
+//@   loop 1 iteration-ensures [object-entry-through-unmarshal] dereffedElemKind == 25 ==> typeis(data, map[string]any) && calls(u.Unmarshal) == 1 && ret(Unmarshal) == nil && arg(Unmarshal, 1) == unbox(data, map[string]any) && arg(Unmarshal, 2) == ret(Interface, 0, 2)
+//@   loop 1 iteration-ensures [map-entry-recursively] dereffedElemKind == 21 ==> typeis(data, map[string]any) && calls(u.generateMap) == 1 && ret(generateMap, 1) == nil && arg(SetMapIndex, 2) == ret(generateMap, 0)
+//@   loop 1 iteration-ensures [bool-only-into-bool] dereffedElemKind != 23 && dereffedElemKind != 25 && dereffedElemKind != 21 && typeis(data, bool) ==> dereffedElemKind == 1
+//@   loop 1 iteration-ensures [string-only-into-string] dereffedElemKind != 23 && dereffedElemKind != 25 && dereffedElemKind != 21 && typeis(data, string) ==> dereffedElemKind == 24
+//@   loop 1 iteration-ensures [number-through-the-checked-store] dereffedElemKind != 23 && dereffedElemKind != 25 && dereffedElemKind != 21 && typeis(data, json.Number) ==> calls(setValue) == 1 && ret(setValue) == nil && arg(setValue, 0) == dereffedElemKind && arg(setValue, 2) == ret(String)
+//@   loop 1 iteration-ensures [other-only-with-equal-kind] dereffedElemKind != 23 && dereffedElemKind != 25 && dereffedElemKind != 21 && !typeis(data, bool) && !typeis(data, string) && !typeis(data, json.Number) ==> calls(Kind) == 1 && ret(Kind) == dereffedElemKind && arg(SetMapIndex, 2) == ret(MapIndex)
